@@ -3,8 +3,8 @@
 (1) generated libraries (vf/exec/xlib.py: real subject library, so the link step
     is real) in three families - C/Fortran rows, Python-admitted rows, Lua subset -
     x Hypothesis-drawn configuration {F_CFI, debug, doxygen,
-    show_splicer_comments, literalinclude2, C_line_length, F_line_length in
-    {40, 72, 100, 132}}: Shroud must exit 0; every wrap*/types* header compiles on
+    show_splicer_comments, literalinclude2, C_line_length in {40, 72, 100, 132},
+    F_line_length in {40, 72, 100, 130}}: Shroud must exit 0; every wrap*/types* header compiles on
     its own as C99 and as C++11; every source compiles; Fortran modules compile
     in --ffiles order; everything links with the subject library and an empty main
     under -Wl,--no-undefined; the Python extension imports under LD_BIND_NOW=1;
@@ -29,6 +29,9 @@ from ..exec import xlib, drivers, pyfront, luafront, upstream
 LEVEL = "exploration"
 
 LENGTHS = [40, 72, 100, 132]
+# The configured Fortran length does not count the continuation marker ' &' (see property C13), and a
+# Fortran line may not exceed 132 columns: 130 is the largest value that can give valid free-form source
+F_LENGTHS = [40, 72, 100, 130]
 
 
 @st.composite
@@ -40,7 +43,7 @@ def config(draw):
     if draw(st.booleans()):
         c["C_line_length"] = draw(st.sampled_from(LENGTHS))
     if draw(st.booleans()):
-        c["F_line_length"] = draw(st.sampled_from(LENGTHS))
+        c["F_line_length"] = draw(st.sampled_from(F_LENGTHS))
     return c
 
 
@@ -378,7 +381,7 @@ def run(ctx):
                 if rnd.random() < 0.5:
                     opts[k] = rnd.random() < 0.5
             opts["C_line_length"] = rnd.choice(LENGTHS)
-            opts["F_line_length"] = rnd.choice(LENGTHS)
+            opts["F_line_length"] = rnd.choice(F_LENGTHS)
             vjobs.append((nme, kind, opts))
     for r in core.pool_map(_corpus_job, vjobs):
         ctx.case(label="corpus-variant", nontrivial=("corpus", r["name"], r["kind"], repr(sorted(r["opts"].items()))))
